@@ -103,7 +103,7 @@ struct Cfg {
   bool stateful;
   int container; // 0 vector 1 deque 2 list
   bool reuse;
-  int nest; // 0 none, 1 inside a pool task, 2 inside another parallel_for body
+  int nest; // 0 none, 1 inside a pool task, 2 inside another parallel_for body, 3 inside a task on a chosen worker
   bool indexFunctor;
   int startMode; // 0 zero 1 near-min 2 touches-max 3 random
   int work;      // simulation points inside each body
@@ -280,6 +280,25 @@ static void runTyped(const Cfg& c, int focus) {
     dispenso::TaskSet outer(pool);
     outer.schedule(core, dispenso::ForceQueuingTag());
     outer.wait();
+  } else if (c.nest == 3) {
+    // from an ordinary task on a plan-chosen pool worker: one task per worker, all held at a harness
+    // barrier so that each worker has exactly one; the k-th to arrive issues the loop, the others return
+    // and are free to take its chunks (which worker the caller is decides which chunk it keeps)
+    int nTasks = std::max(1, c.poolThreads);
+    int chosen = (int)pick((uint32_t)nTasks);
+    int arrived = 0;
+    dispenso::TaskSet outer(pool);
+    for (int t = 0; t < nTasks; ++t)
+      outer.schedule(
+          [&]() {
+            int mine = arrived++;
+            for (int i = 0; i < 200000 && arrived < nTasks; ++i)
+              sim_sleep_ns(1000);
+            if (mine == chosen)
+              core();
+          },
+          dispenso::ForceQueuingTag());
+    outer.wait();
   } else {
     dispenso::TaskSet outer(pool);
     bool done = false;
@@ -369,7 +388,16 @@ static void runCfg(int focus) {
   c.stateful = focus == F_STATE ? true : chance(1, 3);
   c.container = (int)pick(3);
   c.reuse = chance(1, 3);
-  c.nest = chance(3, 4) ? 0 : range(1, 2);
+  c.nest = chance(1, 2) ? 0 : range(1, 3);
+  if (c.nest == 3 && chance(2, 3)) {
+    // a pool worker as the waiting caller of a static loop keeps "its own" chunk (ring index -> chunk
+    // index); that mapping only matters when the loop uses fewer threads than the pool has
+    c.wait = true;
+    c.chunking = chance(3, 4) ? 0 : c.chunking;
+    c.poolThreads = range(2, 5);
+    if (chance(2, 3))
+      c.maxThreads = (uint32_t)range(1, c.poolThreads);
+  }
   // per-index functors hide the chunk boundaries: not usable for the granularity oracle
   c.indexFunctor = focus == F_GRAN ? false : chance(1, 4);
   c.startMode = (int)pick(4);
